@@ -94,6 +94,8 @@ def run(res, args):
     gen.regenerate_all()
     common.coq_make()
     common.standard_proof_cov(res, "C16", THEOREMS)
+    from lib import reggen
+    reggen.reg_obligations(res, "C16")
     common.build_ocaml()
     lines = generate(res.tier, res.seed)
     cf = os.path.join(common.BUILD, "c16cases.txt")
